@@ -69,7 +69,7 @@ type c11conn struct {
 }
 
 type c11step struct {
-	kind    int // 0 plain command, 1 forged DNS answer, 2 forged HTTP proxy answer, 3 overlapped pair (storage stall)
+	kind    int // 0 plain command, 1 forged DNS answer, 2 forged HTTP proxy answer, 3 overlapped pair (storage stall), 4 command, re-handshake as another client, command
 	sender  int
 	cmd     int
 	target  int
@@ -80,6 +80,7 @@ type c11step struct {
 	n1, n2  int
 	fault   int  // 0 none, k>0: the k-th store operation after the send fails
 	churn   bool // the sender's transport is closed right after the request was written
+	twin    bool // overlapped pair: the second command is the same request for the same object, from another connection
 }
 
 type c11snap struct {
@@ -99,6 +100,7 @@ type c11run struct {
 	hist  []string
 	seq   int
 	nontr bool
+	spare []*c11conn // registered, offline clients whose credentials a live transport may prove later
 	// storage stall: the stallAt-th store operation of the run sleeps stallFor in its calling task
 	stOps    int
 	stallAt  int
@@ -162,7 +164,7 @@ func init() {
 		ID:    "C11",
 		Level: "exploration",
 		Rule: "each run wires a real node with the command executor and all four handler sets, registers clients A, B, S (online) and O (offline) over the wire, opens U0 (no handshake) and U1 (challenge for A requested, never answered), creates a per-run drawn subset of objects through the real services (mappings A>O, B>O, socks A>B, a listener-less mapping 0>B and a target-less mapping A>0 (client id 0 = nobody), a code-activated mapping A>B, unactivated codes of A and B, HTTP domain mappings of A and B) and then sends 4-10 drawn commands. " +
-			"The command type is drawn from the table read from the live registry plus the special-cased types of handleCommandPacket plus a few unregistered types; sender in {U0,U1,A,B,S}; target object in {A's, B's, shared, nonexistent}; identity fields (SenderId/ReceiverId/Token and client_id-like body fields) in {absent, victim's}; packet type in {JsonCommand, CommandResp}; optionally one injected store error, optionally the sender's transport is closed right after the request was written. Two composite steps answer a DNS forward / HTTP proxy request (to B, or to T whose link has a per-run drawn buffer of 48 bytes, 200 bytes or unbounded, so that the server's write of the request blocks until the harness reads) from a drawn connection, once while the request is still being delivered and once while the server waits. A fourth kind of step overlaps two commands of different connections: a storage operation inside the first command's processing is held for 3 s, 47 s or 95 s of simulated time (shorter and longer than the executor's command timeout) and the second command is sent 0.2 s, 33 s or 61 s after the first, so that handlers outlive their Execute call while another connection's command is created and answered. Every command carries data only it supplies (description, new subdomain, addresses): a stored record with that data must name the identity of the connection the command arrived on, and neither an answer with another connection's command id nor another command's own data may arrive on a transport (unless a record naming the receiver holds it). " +
+			"The command type is drawn from the table read from the live registry plus the special-cased types of handleCommandPacket plus a few unregistered types; sender in {U0,U1,A,B,S}; target object in {A's, B's, shared, nonexistent}; identity fields (SenderId/ReceiverId/Token and client_id-like body fields) in {absent, victim's}; packet type in {JsonCommand, CommandResp}; optionally one injected store error, optionally the sender's transport is closed right after the request was written. Two composite steps answer a DNS forward / HTTP proxy request (to B, or to T whose link has a per-run drawn buffer of 48 bytes, 200 bytes or unbounded, so that the server's write of the request blocks until the harness reads) from a drawn connection, once while the request is still being delivered and once while the server waits. A fifth kind of step sends a command, lets the same transport complete a second handshake with the credentials of a registered offline client (O or P), and sends the next command: from the success reply on, the transport's identity is the new client. A fourth kind of step overlaps two commands of different connections (in half of the cases the second is the very same request for the very same object): a storage operation inside the first command's processing is held for 3 s, 47 s or 95 s of simulated time (shorter and longer than the executor's command timeout) and the second command is sent 0.2 s, 33 s or 61 s after the first, so that handlers outlive their Execute call while another connection's command is created and answered. Every command carries data only it supplies (description, new subdomain, addresses): a stored record with that data must name the identity of the connection the command arrived on, and neither an answer with another connection's command id nor another command's own data may arrive on a transport (unless a record naming the receiver holds it). " +
 			"Around every command the whole store and every transport's inbox are diffed. Non-trivial: at least one command that names an existing harness-created object was sent by an unauthenticated connection, by a non-party, or with forged identity fields and was written to the server, or a forged answer was injected while the server really had the request pending at B. Distinct = distinct schedule hashes; w.State counts (command, sender role, target ownership, forge, packet type, outcome) cells.",
 		Real: []string{"internal/command CommandRegistry/CommandExecutor and the HTTP-domain handlers", "internal/app/server connection-code, mapping, config and HTTP-domain command handler sets, ServerAuthHandler", "internal/protocol/session SessionManager: handleCommandPacket special cases (SOCKS5, DNS resolve/query, traffic report, disconnect, HTTP proxy response), client registry, BaseAdapter read loop", "internal/cloud services/repos (port mappings, connection codes, HTTP domain mappings, clients) on the real memory storage backend", "internal/stream StreamProcessor on both ends"},
 		Stub: []string{"transport: simnet links", "peers: scripted clients (they never answer forwarded requests unless the step says so)", "slow storage: simstore Sync hook sleeping in the calling task", "no second node (cross-node DNS/HTTP forwarding is not reachable)"},
@@ -252,6 +254,8 @@ func c11Run(w *simrt.World, tier string) {
 			s.kind = 2
 		case k == 8 || k == 9:
 			s.kind = 3 // overlapped with the next step's command
+		case k == 7:
+			s.kind = 4 // the sender's transport re-handshakes as another client between this and the next command
 		}
 		s.sender = c.Intn(5, "sender")
 		// registry handlers and special cases get most of the weight; the tail are unregistered types
@@ -274,6 +278,7 @@ func c11Run(w *simrt.World, tier string) {
 			s.fault = 1 + c.Intn(6, "fault.k")
 		}
 		s.churn = c.Intn(12, "churn") == 11
+		s.twin = c.Intn(2, "twin") == 1
 	}
 
 	// ---- clients
@@ -308,6 +313,14 @@ func c11Run(w *simrt.World, tier string) {
 	}
 	cO.cl.Close()
 	cO.closed = true
+	// P: a second registered client that is offline; O and P are the identities a live transport may re-handshake as
+	cP := mk("P", "10.1.0.8:4000", true)
+	if cP == nil {
+		return
+	}
+	cP.cl.Close()
+	cP.closed = true
+	r.spare = []*c11conn{cO, cP}
 	u0 := mk("U0", "10.1.0.5:4000", false)
 	u1 := mk("U1", "10.1.0.6:4000", false)
 	if resp, ok := u1.cl.Handshake(&packet.HandshakeRequest{ClientID: cA.id, Version: "3", Protocol: "tcp", ConnectionType: "control"}); !ok || resp == nil || resp.Success {
@@ -321,11 +334,11 @@ func c11Run(w *simrt.World, tier string) {
 	}
 	r.conns = []*c11conn{u0, u1, cA, cB, cS, cT} // senders are drawn among the first five
 	w.Sleep(337 * time.Millisecond)
-	for _, cc := range append(r.conns, cO) {
+	for _, cc := range append(r.conns, cO, cP) {
 		defer cc.cl.Close()
 	}
 	// every client's secret key belongs to that client alone
-	for _, cc := range []*c11conn{cA, cB, cS, cO, cT} {
+	for _, cc := range []*c11conn{cA, cB, cS, cO, cT, cP} {
 		if cc.cl.Secret != "" {
 			r.objs = append(r.objs, &c11obj{kind: "client", name: "secret." + cc.name, idents: []string{cc.cl.Secret}, nstrong: 1, parties: map[int64]bool{cc.id: true}})
 		}
@@ -410,8 +423,8 @@ func c11Run(w *simrt.World, tier string) {
 			s2 := &plan[i+1]
 			skip = true
 			var y *c11conn
-			for k := 0; k < len(r.conns); k++ {
-				if cc := r.conns[(s2.sender+k)%len(r.conns)]; cc != snd && !cc.closed {
+			for k := 0; k < 5; k++ {
+				if cc := r.conns[(s2.sender+k)%5]; cc != snd && !cc.closed {
 					y = cc
 					break
 				}
@@ -420,7 +433,24 @@ func c11Run(w *simrt.World, tier string) {
 				r.command(s, snd, table[s.cmd%len(table)])
 				break
 			}
-			r.overlapped(s, s2, snd, y, table[s.cmd%len(table)], table[s2.cmd%len(table)])
+			tx, ty := table[s.cmd%len(table)], table[s2.cmd%len(table)]
+			if s.twin {
+				// the very same request for the very same object, under another connection's identity
+				t2 := *s2
+				t2.target, t2.variant = s.target, s.variant
+				s2, ty = &t2, tx
+			}
+			r.overlapped(s, s2, snd, y, tx, ty)
+		case s.kind == 4 && i+1 < len(plan) && snd.id != 0 && len(r.spare) > 0:
+			// command under the old identity, then the transport proves another client's credentials,
+			// then the next step's command: it must act as the identity proven last
+			skip = true
+			r.command(s, snd, table[s.cmd%len(table)])
+			if snd.closed || snd.cl.Srv.Closed() {
+				break
+			}
+			r.rehandshake(snd)
+			r.command(&plan[i+1], snd, table[plan[i+1].cmd%len(table)])
 		default:
 			r.command(s, snd, table[s.cmd%len(table)])
 		}
@@ -712,7 +742,7 @@ func (r *c11run) diff(a, b *c11snap) []c11change {
 				}
 			}
 		}
-		for _, n := range []string{"A", "B", "S", "O", "T"} {
+		for _, n := range []string{"A", "B", "S", "O", "T", "P"} {
 			if c11has(text, strconv.FormatInt(r.ids[n], 10)) {
 				ch.clients[r.ids[n]] = true
 				ch.parties[r.ids[n]] = true
@@ -726,7 +756,7 @@ func (r *c11run) diff(a, b *c11snap) []c11change {
 }
 
 func (r *c11run) who(id int64) string {
-	for _, n := range []string{"A", "B", "S", "O", "T"} {
+	for _, n := range []string{"A", "B", "S", "O", "T", "P"} {
 		if r.ids[n] == id {
 			return n
 		}
@@ -1036,6 +1066,9 @@ func (r *c11run) overlapped(s, s2 *c11step, x, y *c11conn, tx, ty packet.Command
 	r.drain()
 	after := r.snapshot()
 	how := "overlap"
+	if s.twin && r.stalled {
+		w.Probe("overlap.twin-requests")
+	}
 	if r.stalled {
 		how = fmt.Sprintf("overlap[first command's handler held %v in storage, second sent after %v]", stall.Truncate(time.Second), delay.Truncate(time.Second))
 		w.Probe(fmt.Sprintf("overlap.stalled.%ds.second-after-%ds", int(stall.Seconds()), int(delay.Seconds())))
@@ -1362,6 +1395,32 @@ func c11own(o *c11obj) string {
 
 // ---------------------------------------------------------------------------
 // composite steps: somebody else answers a pending request
+
+// rehandshake: a live, authenticated transport runs the two-phase handshake with
+// the credentials of a registered client that is offline. From the success reply
+// on, the identity proven on that transport is the new client.
+func (r *c11run) rehandshake(x *c11conn) {
+	w := r.w
+	id := r.spare[0]
+	old := x.id
+	resp, ok := x.cl.Login(id.id, id.cl.Secret, "control")
+	if !ok || resp == nil || !resp.Success {
+		r.logf("%s(%s) tries to re-handshake as %s -> refused", x.name, r.who(old), id.name)
+		w.Probe("rehandshake.refused")
+		if !ok {
+			x.closed = true
+			x.cl.Close()
+		}
+		return
+	}
+	r.spare = r.spare[1:]
+	x.id = id.id
+	r.logf("%s re-handshakes: identity proven on that transport changes from %s to %s", x.name, r.who(old), r.who(x.id))
+	w.Probe("rehandshake.ok")
+	r.nontr = true
+	// the server's own bookkeeping of the switch (old client offline, new client online) settles outside any window
+	w.Sleep(457 * time.Millisecond)
+}
 
 // answerTarget picks the client whose answer is awaited in a composite step: B,
 // or T whose link to the server may be congested (small buffer: the server's
